@@ -18,7 +18,12 @@ def coins_to_satoshis(coins):
 
 
 def satoshis_to_coins(satoshis):
-    coins = '{:.8f}'.format(satoshis / COIN).rstrip('0')
+    if isinstance(satoshis, int):
+        # exact integer arithmetic: float division loses dewies above ~6.7e15
+        whole, fractional = divmod(abs(satoshis), COIN)
+        coins = f"{'-' if satoshis < 0 else ''}{whole}.{fractional:08d}".rstrip('0')
+    else:
+        coins = '{:.8f}'.format(satoshis / COIN).rstrip('0')
     if coins.endswith('.'):
         return coins+'0'
     else:
